@@ -4,6 +4,7 @@ package server
 
 import (
 	"fmt"
+	"net/http"
 	"sort"
 	"strings"
 	"testing"
@@ -45,8 +46,29 @@ type c01Conn struct {
 	outs []*c01Outcome
 }
 
-func c01Run(e *vsched.Exec, conns [][]string, disableUDP bool) {
-	r := newRig(e, rigOpts{DisableUDP: disableUDP})
+// c01StatusMasq is a CONFIGURED masquerade handler answering every request with one fixed status
+// and a small body - what a `string` masquerade with statusCode N, or a proxied upstream that
+// replies N, does. The status a rejected auth request is answered with is the operator's choice
+// (it may be 200, it may even be 233) and is no evidence of authentication: only the
+// authenticator's verdict on that connection is. (Dimension added after the independently seeded
+// change C01-9: the connection was marked authenticated whenever the status actually written in
+// reply to the auth request was 233, also when the masquerade handler wrote it for a rejected one.)
+type c01StatusMasq int
+
+func (s c01StatusMasq) ServeHTTP(w http.ResponseWriter, r *http.Request) {
+	w.Header().Set("Content-Type", "text/plain")
+	w.WriteHeader(int(s))
+	_, _ = w.Write([]byte("masquerade"))
+}
+
+// c01Run: masqStatus 0 = the default masquerade (404), otherwise c01StatusMasq(masqStatus).
+func c01Run(e *vsched.Exec, conns [][]string, disableUDP bool, masqStatus int) {
+	var masq http.Handler
+	wantMasq := 404 // default masquerade: a plain 404 without any Hysteria-specific header
+	if masqStatus != 0 {
+		masq, wantMasq = c01StatusMasq(masqStatus), masqStatus
+	}
+	r := newRig(e, rigOpts{DisableUDP: disableUDP, Masq: masq})
 	if r.srv == nil {
 		return
 	}
@@ -142,16 +164,18 @@ func c01Run(e *vsched.Exec, conns [][]string, disableUDP bool) {
 					if firstOK >= 0 && firstOK < o.Start && o.Status != protocol.StatusAuthOK {
 						e.Fail("(b) rejected attempt after acceptance revoked/re-evaluated access on %s: status %d", cn.name, o.Status)
 					}
-					if firstOK < 0 && o.Status == protocol.StatusAuthOK {
+					if firstOK < 0 && o.Status == protocol.StatusAuthOK && wantMasq != protocol.StatusAuthOK {
 						e.Fail("rejected credentials got 233 on %s", cn.name)
 					}
-					if o.Status != protocol.StatusAuthOK && (o.Status != 404 || len(o.HysHdr) > 0) {
-						// default masquerade: a plain 404 without any Hysteria-specific header
-						e.Fail("rejected auth request on %s answered with status %d and Hysteria headers %v instead of the masquerade response", cn.name, o.Status, o.HysHdr)
+					isMasq := o.Status == wantMasq && len(o.HysHdr) == 0
+					if !isMasq && (o.Status != protocol.StatusAuthOK || (firstOK < 0 && wantMasq == protocol.StatusAuthOK)) {
+						// the masquerade response: its status without any Hysteria-specific header (also
+						// when the configured masquerade status happens to be 233 itself)
+						e.Fail("rejected auth request on %s answered with status %d and Hysteria headers %v instead of the masquerade response (status %d)", cn.name, o.Status, o.HysHdr, wantMasq)
 					}
 				}
 			case c01NonAuth:
-				if o.Err == "" && o.Status == protocol.StatusAuthOK {
+				if o.Err == "" && o.Status == protocol.StatusAuthOK && wantMasq != protocol.StatusAuthOK {
 					e.Fail("non-auth request got 233 on %s", cn.name)
 				}
 			case c01Raw401:
@@ -251,7 +275,7 @@ func c01Scenarios(thorough bool) []*explore.Scenario {
 		max1 = 4
 	}
 	add := func(name string, conns [][]string, noUDP bool, q, t explore.Bounds) {
-		scs = append(scs, &explore.Scenario{Name: name, Quick: q, Thorough: t, Body: func(e *vsched.Exec) { c01Run(e, conns, noUDP) }})
+		scs = append(scs, &explore.Scenario{Name: name, Quick: q, Thorough: t, Body: func(e *vsched.Exec) { c01Run(e, conns, noUDP, 0) }})
 	}
 	for _, ms := range c01Multisets(alpha, max1) {
 		q := explore.Bounds{P: 2}
@@ -276,6 +300,26 @@ func c01Scenarios(thorough bool) []*explore.Scenario {
 	// server-wide cache of recently accepted (client IP, credential) pairs)
 	for _, b := range [][]string{{c01AuthOnce, c01Raw401}, {c01AuthOnce, c01Dgram}} {
 		add("2conn:AuthOnce+Raw401|"+strings.Join(b, "+"), [][]string{{c01AuthOnce, c01Raw401}, b}, false, explore.Bounds{P: 1}, explore.Bounds{P: 2})
+	}
+	// a configured masquerade handler answering every request with a fixed status - 233 (the very
+	// status an accepted auth gets) and 200 -, rejected auth requests, then 0x401 streams / datagrams
+	// on the never-authenticated connection; plus one mix with a later accepted auth (added after
+	// the independently seeded change C01-9: authenticated was derived from the status written in
+	// reply to the auth request instead of from the authenticator's verdict)
+	for _, ms := range []struct {
+		status int
+		evs    []string
+		q, t   explore.Bounds
+	}{
+		{233, []string{c01AuthBad, c01Raw401}, explore.Bounds{P: 2}, explore.Bounds{P: 3}},
+		{233, []string{c01AuthBad, c01Dgram}, explore.Bounds{P: 2}, explore.Bounds{P: 3}},
+		{233, []string{c01AuthBad, c01NonAuth, c01Raw401}, explore.Bounds{P: 1}, explore.Bounds{P: 2}},
+		{233, []string{c01AuthOK, c01AuthBad, c01Raw401}, explore.Bounds{P: 1}, explore.Bounds{P: 2}},
+		{200, []string{c01AuthBad, c01Raw401, c01Dgram}, explore.Bounds{P: 1}, explore.Bounds{P: 2}},
+	} {
+		ms := ms
+		scs = append(scs, &explore.Scenario{Name: fmt.Sprintf("1conn-masq-status=%d:%s", ms.status, strings.Join(ms.evs, "+")), Quick: ms.q, Thorough: ms.t,
+			Body: func(e *vsched.Exec) { c01Run(e, [][]string{ms.evs}, false, ms.status) }})
 	}
 	noAuth := []string{c01AuthBad, c01NonAuth, c01Raw401, c01Dgram}
 	for _, a := range [][]string{{c01AuthOK}, {c01AuthOK, c01Raw401}, {c01AuthOK, c01Dgram}} {
